@@ -253,4 +253,43 @@ Fixpoint orun (s : ostate) (ops : list dop) (obs : list (list (list N))) : bool 
   | o :: r, ob :: rb => let '(s', ok) := ostep s o ob in ok && orun s' r rb
   | _, _ => true
   end.
-Definition oracle (ops : list dop) (obs : list (list (list N))) : bool := orun (mk_o [] [] []) ops obs.
+(* (iv) a private message honours the recipient's refuse flag and automatic reply: at every private-message step
+   the frames each client receives -- kind (3 delivery, 4 refusal, 5 automatic reply, 6 plain reply), sender, and
+   the text for kinds 3 and 5 -- are those the reference model (Srv/Presence.send_pm over the options last announced
+   by the recipient; Props/C13: C13_pm_respects_refuse_flag, C13_pm_delivered_with_auto_reply) prescribes. *)
+Fixpoint pm_frames (fuel : nat) (b : list N) : list (N * list N) :=
+  match fuel with
+  | O => []
+  | S f =>
+      match b with
+      | 1 :: _ :: _ :: r =>
+          let nl := N.to_nat (dbe (firstn 2 r)) in
+          let r1 := skipn (2 + nl) r in
+          let il := N.to_nat (dbe (firstn 2 r1)) in
+          pm_frames f (skipn (2 + il + 2) r1)
+      | 2 :: _ :: _ :: r => pm_frames f r
+      | 6 :: r => (6, []) :: pm_frames f r
+      | k :: i0 :: i1 :: r =>
+          let tl := N.to_nat (dbe (firstn 2 r)) in
+          let r1 := skipn (2 + tl) r in
+          let nl := N.to_nat (dbe (firstn 2 r1)) in
+          (k, [i0; i1] ++ (if (k =? 3) || (k =? 5) then firstn tl (skipn 2 r) else []))
+            :: pm_frames f (skipn (2 + nl + 2) r1)
+      | _ => []
+      end
+  end.
+Definition pm_view (boxes : list (list N)) : list (list N * list (N * list N)) :=
+  filter (fun p => negb (match snd p with [] => true | _ => false end))
+         (map (fun b => (firstn 2 b, pm_frames (List.length b) (skipn 2 b))) boxes).
+Definition pm_view_eqb (x y : list (list N * list (N * list N))) : bool :=
+  list_eqb (fun p q => bytes_eqb (fst p) (fst q) &&
+                       list_eqb (fun u v => (fst u =? fst v) && bytes_eqb (snd u) (snd v)) (snd p) (snd q)) x y.
+Fixpoint pm_effect_ok (ops : list dop) (ms obs : list (list (list N))) : bool :=
+  match ops, ms, obs with
+  | (code, _) :: r, m :: rm, ob :: rb =>
+      (if code =? 7 then pm_view_eqb (pm_view m) (pm_view ob) else true) && pm_effect_ok r rm rb
+  | _, _, _ => true
+  end.
+
+Definition oracle (ops : list dop) (obs : list (list (list N))) : bool :=
+  orun (mk_o [] [] []) ops obs && pm_effect_ok ops (model ops) obs.
